@@ -43,12 +43,20 @@ VS = ["top", "center", "bottom"]
 ALIGNS = [None] + [(h, v) for h in HS for v in VS]
 
 
+ORIGINS_T = ORIGINS + [("0.5", "0.25"), ("33.33", "66.67"), ("90", "95")]
+EXTENTS_T = EXTENTS + [("0.5", "99.5"), ("100", "100")]
+PADDINGS_T = PADDINGS + [("0.5", "0", "0", "0"), ("0", "0", "0", "4"), ("4", "3", "2", "1")]
+
+
 def bounds(tier):
-    return {"origins": len(ORIGINS), "extents": len(EXTENTS), "paddings": len(PADDINGS), "alignments": len(ALIGNS)}
+    if tier == "quick":
+        return {"origins": len(ORIGINS), "extents": len(EXTENTS), "paddings": len(PADDINGS), "alignments": len(ALIGNS)}
+    return {"origins": len(ORIGINS_T), "extents": len(EXTENTS_T), "paddings": len(PADDINGS_T), "alignments": len(ALIGNS), "note": "plus every grid layout at each two-level combination with a fixed partner layout"}
 
 
-def grid():
-    for o, e, p, a in itertools.product(ORIGINS, EXTENTS, PADDINGS, ALIGNS):
+def grid(tier="quick"):
+    O, E, P = (ORIGINS, EXTENTS, PADDINGS) if tier == "quick" else (ORIGINS_T, EXTENTS_T, PADDINGS_T)  # noqa: N806
+    for o, e, p, a in itertools.product(O, E, P, ALIGNS):
         if o is None and e is None and p is None and a is None:
             continue
         yield (o, e, p, a)
@@ -331,13 +339,17 @@ def single_level_desc(spec, level):
 
 def shards(tier, seed):
     sh = []
+    np_ = 6 if tier == "quick" else 16
     for level in ("lang", "caption", "span"):
-        for part in range(6):
-            sh.append({"k": "single", "level": level, "part": part, "nparts": 6})
+        for part in range(np_):
+            sh.append({"k": "single", "level": level, "part": part, "nparts": np_, "tier": tier})
     sh.append({"k": "multi"})
     sh.append({"k": "pairs"})
-    for part in range(4):
-        sh.append({"k": "vtt", "part": part, "nparts": 4})
+    if tier == "thorough":
+        for part in range(16):
+            sh.append({"k": "two-level-grid", "part": part, "nparts": 16, "tier": tier})
+    for part in range(4 if tier == "quick" else 12):
+        sh.append({"k": "vtt", "part": part, "nparts": 4 if tier == "quick" else 12, "tier": tier})
     sh.append({"k": "vtt2"})
     sh.append({"k": "bare"})
     return sh
@@ -353,8 +365,16 @@ def run_shard(d):
         for sig, det in v:
             acc.violation(sig, {"fn": fn.__name__, "desc": desc, "fit": fit}, det)
 
-    if k == "single":
-        for i, spec in enumerate(grid()):
+    if k == "two-level-grid":
+        partner = REDUCED[2]
+        for i, spec in enumerate(grid(d["tier"])):
+            if i % d["nparts"] != d["part"] or spec == partner:
+                continue
+            run(eval_dfxp, {"lang": spec, "captions": [{"layout": partner, "parts": [("t0", None, "plain")]}, {"layout": None, "parts": [("t1", None, "plain")]}], "klass": "lang+caption"}, False)
+            run(eval_dfxp, {"lang": partner, "captions": [{"layout": None, "parts": [("t0", spec, "span"), ("t1", None, "plain")]}], "klass": "lang+span"}, False)
+            run(eval_dfxp, {"lang": None, "captions": [{"layout": spec, "parts": [("t0", partner, "span"), ("t1", None, "plain")]}, {"layout": partner, "parts": [("t2", spec, "span")]}], "klass": "caption+span"}, True)
+    elif k == "single":
+        for i, spec in enumerate(grid(d.get("tier", "quick"))):
             if i % d["nparts"] != d["part"]:
                 continue
             for fit in (False, True):
@@ -382,7 +402,7 @@ def run_shard(d):
                 run(eval_dfxp, {"lang": None, "captions": [{"layout": a, "parts": [("t0", None, "plain")]}, {"layout": b, "parts": [("t1", None, "plain")]}], "klass": "two-captions"}, fit)
                 run(eval_dfxp, {"lang": None, "captions": [{"layout": None, "parts": [("t0", a, "span"), ("t1", b, "span"), ("t2", None, "plain")]}], "klass": "two-spans"}, fit)
     elif k == "vtt":
-        for i, spec in enumerate(grid()):
+        for i, spec in enumerate(grid(d.get("tier", "quick"))):
             if i % d["nparts"] != d["part"] or spec[0] is None:
                 continue
             for fit in (False, True):
